@@ -460,6 +460,13 @@ fn det_strategy(max_iters: u32) -> impl Strategy<Value = DetCase> {
     let what = prop_oneof![
         3 => run_spec_strategy(None, max_iters).prop_map(What::Template),
         1 => (gen_conf_strategy(max_iters), inst_strategy(Kind::Real), any::<u64>()).prop_map(|(g, i, s)| What::Generated(g, i, s)),
+        // large populations (>= 128) with a diversity measure: collective computations over the whole population
+        1 => (gen_conf_strategy(max_iters), inst_strategy(Kind::Real), any::<u64>(), 1u8..5).prop_map(|(mut g, i, s, d)| {
+            g.big = true;
+            g.diversity = d;
+            g.iters = g.iters.max(2);
+            What::Generated(g, i, s)
+        }),
     ];
     (what, prop_oneof![Just(1u8), Just(2), Just(3), Just(4), Just(8), Just(16)], 1u64..4).prop_map(|(what, threads, jitter)| DetCase { what, threads, jitter })
 }
